@@ -29,9 +29,6 @@ func (x *Exec) structuralObligations() []structOb {
 		if fn.Recover != nil {
 			bad = append(bad, fnKey(fn)+": defer/recover")
 		}
-		if fn.TypeParams().Len() > 0 {
-			bad = append(bad, fnKey(fn)+": generics")
-		}
 		for _, b := range fn.Blocks {
 			for _, in := range b.Instrs {
 				switch v := in.(type) {
